@@ -93,6 +93,22 @@ theorem esmry_base_part_ends_at_restart_step (own rstNum : Int) (rstep : List In
       (ExtESmry.ones (rstep.take (ind + 1)) : Int) = rstNum - own :=
   ExtESmry.base_part_ends_at_restart_step own rstNum rstep h1 h2
 
+/-- The same for the SMSPEC reader (`ESmry`), whose scan counts SEQHDR groups and stops with
+`>=`: the time steps taken from a base run end with the step completing the restart step and
+hold `rstNum - own` report steps (counter start regenerated from `ESmry.cpp`) … -/
+theorem esmry_base_part_ends_at_restart_step_smspec (own rstNum : Int) (rstep : List Int) (h1 : own < rstNum)
+    (h2 : rstNum - own ≤ (ExtESmry.ones rstep : Int)) :
+    let n := ExtESmry.scanCount (ExtESmry.esmryCountStart own) rstNum rstep
+    1 ≤ n ∧ n ≤ rstep.length ∧ rstep[n - 1]? = some 1 ∧
+      (ExtESmry.ones (rstep.take n) : Int) = rstNum - own :=
+  ExtESmry.esmry_base_part own rstNum rstep h1 h2
+
+/-- … and the two readers take the same number of time steps of a base run. -/
+theorem both_readers_take_the_same_base_part (own rstNum : Int) (rstep : List Int) (h1 : own < rstNum)
+    (h2 : rstNum - own ≤ (ExtESmry.ones rstep : Int)) :
+    ExtESmry.scanCount own rstNum rstep = ExtESmry.cutIndex own rstNum rstep + 1 :=
+  ExtESmry.readers_agree_on_base_part own rstNum rstep h1 h2
+
 /-! Non-vacuity -/
 
 example : ExtESmry.cutIndex (ExtESmry.countStart 2) 4 [0, 1, 1, 0, 1, 1] = 2 := by decide
